@@ -24,6 +24,13 @@ def run(ctx):
            {"id": "wit-recover-nosnap", "phases": [{"script": "w:1,w:12,x", "crash": "", "recover": False, "rmfp": False},
                                                    {"script": "w:1,c", "crash": "", "recover": True, "rmfp": False},
                                                    {"script": "c", "crash": "", "recover": False, "rmfp": False}]}]
+    # recovery when the newest snapshot already covers the whole log (full, and incremental on a full)
+    for name, script in (("covered-by-full", "w:1,w:12,s,c"), ("covered-by-incremental", "w:1,s,w:2,s,c"),
+                         ("covered-by-incremental-2", "w:12,s,w:1,s,w:2,s,x"), ("covered-after-load", "w:1,s,L,s,w:2,s,c")):
+        wit.append({"id": "wit-recover-" + name, "phases": [{"script": script, "crash": "", "recover": False, "rmfp": False},
+                                                            {"script": "w:1,c", "crash": "", "recover": True, "rmfp": False},
+                                                            {"script": "w:2,s,c", "crash": "", "recover": False, "rmfp": False},
+                                                            {"script": "c", "crash": "", "recover": False, "rmfp": True}]})
     cases = sample + wit
     st, rows = snapcases.run_cases(ctx, vlib, cases, "manual recovery from a peers file", "recover")
     nrec = sum(1 for r in rows if r.get("ev") == "open" and r.get("recover"))
